@@ -10,3 +10,237 @@ Proof.
   repeat split; try reflexivity. intros s H1 H2 H3 H4 H5. unfold icap_dispatch.
   repeat match goal with |- context[?a =? ?b] => destruct (N.eqb_spec a b); [congruence|] end. reflexivity.
 Qed.
+
+Lemma writing_ranks :
+  map w_rank [WInit; WConnect; WHeaders; WPreview; WPaused; WPrime; WAlmostDone; WReallyDone] = [0;1;2;3;4;5;6;7] /\
+  writing_enum_size = 8.
+Proof. split; reflexivity. Qed.
+
+(* ------------------------------------------------------------------ frames
+   [fr x y]: y differs from x only in bookkeeping that the delivered message does not depend on *)
+Definition fr (x y : xs) : Prop :=
+  ad y = ad x /\ out y = out x /\ job y = job x /\ cfg y = cfg x /\
+  parsing (st y) = parsing (st x) /\ sending (st y) = sending (st x) /\
+  s_off (vs y) = s_off (vs x) /\ vp_data (vs y) = vp_data (vs x) /\ readbuf (io y) = readbuf (io x) /\
+  icap_h (io y) = icap_h (io x) /\ icap_b (io y) = icap_b (io x) /\ icap_tr (io y) = icap_tr (io x) /\
+  comm_eof (io y) = comm_eof (io x).
+Lemma fr_refl x : fr x x.
+Proof. unfold fr; repeat split. Qed.
+Lemma fr_trans x y z : fr x y -> fr y z -> fr x z.
+Proof. unfold fr; intros; intuition congruence. Qed.
+Definition frames (f : xs -> res) : Prop := forall x, fr x (st_of (f x)).
+
+Lemma frames_bind f g : frames f -> frames g -> frames (fun x => f x >>= g).
+Proof.
+  intros Hf Hg x. specialize (Hf x). unfold bind. destruct (f x) as [y|y]; cbn [st_of] in *.
+  - eapply fr_trans; [exact Hf| apply Hg].
+  - exact Hf.
+Qed.
+Lemma fr_bind x r g : fr x (st_of r) -> frames g -> fr x (st_of (r >>= g)).
+Proof.
+  intros H Hg. unfold bind. destruct r as [y|y]; cbn [st_of] in *; [eapply fr_trans; [exact H|apply Hg]|exact H].
+Qed.
+Lemma frames_must c : frames (fun x => must (c x) x).
+Proof. intros x. unfold must. destruct (c x); apply fr_refl. Qed.
+Lemma fr_must x (c : bool) : fr x (st_of (must c x)).
+Proof. unfold must; destruct c; apply fr_refl. Qed.
+
+Ltac frsolve := unfold fr; cbn; repeat split; reflexivity.
+Ltac brk :=
+  repeat match goal with
+  | |- context[if ?c then _ else _] => destruct c
+  | |- context[match ?c with _ => _ end] => destruct c
+  end.
+
+Lemma virginConsume_fr : frames virginConsume.
+Proof.
+  intros x. unfold virginConsume.
+  destruct (negb (vp_attached (vs x))); [apply fr_refl|].
+  destruct (retriable (fl x)); [apply fr_refl|].
+  match goal with |- context[if ?c then Ok x else _] => destruct c; [apply fr_refl|] end.
+  unfold must, bind. match goal with |- context[if ?c then Ok x else Throw x] => destruct c; [|apply fr_refl] end.
+  match goal with |- context[if ?c then _ else _] => destruct c end; cbn [st_of]; [|apply fr_refl].
+  unfold disableBypass, disableRepeats. frsolve.
+Qed.
+
+Lemma checkConsuming_fr x : fr x (checkConsuming x).
+Proof. unfold checkConsuming. match goal with |- context[if ?c then _ else _] => destruct c end; [apply fr_refl|frsolve]. Qed.
+
+Lemma stopWriting_fr n : frames (stopWriting n).
+Proof.
+  intros x. unfold stopWriting. destruct (writing (st x)); try apply fr_refl;
+  (destruct (writer (io x) && n); cbn [st_of];
+   [eapply fr_trans; [|apply checkConsuming_fr]; frsolve|];
+   apply fr_bind;
+   [ destruct (writer (io x)); destruct (active _);
+     first [ eapply fr_trans; [|apply virginConsume_fr]; frsolve | cbn [st_of]; frsolve ]
+   | intros y; cbn [st_of]; eapply fr_trans; [|apply checkConsuming_fr]; frsolve ]).
+Qed.
+
+Lemma stopBackup_fr : frames stopBackup.
+Proof.
+  intros x. unfold stopBackup. destruct (active _); [|apply fr_refl].
+  eapply fr_trans; [|apply virginConsume_fr]. frsolve.
+Qed.
+
+Ltac fr1 :=
+  match goal with
+  | |- fr ?x ?x => apply fr_refl
+  | |- fr ?x (st_of (must _ ?x)) => apply fr_must
+  | |- fr _ (st_of (must _ _)) => eapply fr_trans; [| apply fr_must]
+  | |- fr _ (st_of (_ >>= _)) => apply fr_bind; [| unfold frames; intros ?]
+  | |- fr _ (st_of (if ?c then _ else _)) => destruct c
+  | |- fr _ (st_of (match ?c with _ => _ end)) => destruct c
+  | |- fr _ (st_of (Ok _)) => cbn [st_of]
+  | |- fr _ (st_of (Throw _)) => cbn [st_of]
+  | |- fr _ (st_of (virginConsume _)) => eapply fr_trans; [| apply virginConsume_fr]
+  | |- fr _ (st_of (stopWriting _ _)) => eapply fr_trans; [| apply stopWriting_fr]
+  | |- fr _ (st_of (stopBackup _)) => eapply fr_trans; [| apply stopBackup_fr]
+  | |- fr _ (checkConsuming _) => eapply fr_trans; [| apply checkConsuming_fr]
+  | |- fr _ (if ?c then _ else _) => destruct c
+  | |- fr _ _ => frsolve
+  end.
+Ltac frauto := cbv zeta; repeat fr1.
+
+Lemma writeSomeBody_fr n : frames (writeSomeBody n).
+Proof. intros x. unfold writeSomeBody. frauto. Qed.
+
+Lemma decideWritingAfterPreview_fr : frames decideWritingAfterPreview.
+Proof. intros x. unfold decideWritingAfterPreview. frauto. Qed.
+
+Lemma writePreviewBody_fr : frames writePreviewBody.
+Proof.
+  intros x. unfold writePreviewBody. apply fr_bind; [apply fr_must|]. intros y.
+  apply fr_bind; [apply writeSomeBody_fr|]. intros z. destruct (pv_done z); [apply decideWritingAfterPreview_fr|apply fr_refl].
+Qed.
+
+Lemma writePrimeBody_fr : frames writePrimeBody.
+Proof.
+  intros x. unfold writePrimeBody. apply fr_bind; [apply fr_must|]. intros y.
+  apply fr_bind; [apply writeSomeBody_fr|]. intros z. destruct (end_reached_w z); [apply stopWriting_fr|apply fr_refl].
+Qed.
+
+Lemma writeMore_fr : frames writeMore.
+Proof.
+  intros x. unfold writeMore. destruct (writer (io x)); [apply fr_refl|].
+  destruct (writing (st x)); try apply fr_refl.
+  - apply writePreviewBody_fr. - apply writePrimeBody_fr. - apply stopWriting_fr.
+Qed.
+
+Lemma handleCommWroteHeaders_fr : frames handleCommWroteHeaders.
+Proof.
+  intros x. unfold handleCommWroteHeaders. destruct (pv_enabled x).
+  - apply fr_bind; [|apply writeMore_fr]. destruct (pv_done x); [apply decideWritingAfterPreview_fr|cbn [st_of]; frsolve].
+  - destruct (vb_expected (cfg x)); [|apply stopWriting_fr].
+    eapply fr_trans; [|apply writeMore_fr]. frsolve.
+Qed.
+
+Lemma noteCommWrote_fr : frames noteCommWrote.
+Proof.
+  intros x. unfold noteCommWrote. cbv zeta.
+  destruct (ignore_lw (io (with_writer false x))); [cbn [st_of]; frsolve|].
+  assert (H : fr x (with_writer false x)) by frsolve.
+  destruct (writing (st (with_writer false x)));
+    (eapply fr_trans; [exact H|]); first [apply writeMore_fr | apply handleCommWroteHeaders_fr].
+Qed.
+
+(* ------------------------------------------------------------------ list facts *)
+Lemma takeN_0 {A} (l : list A) : takeN 0 l = [].
+Proof. destruct l; reflexivity. Qed.
+Lemma dropN_0 {A} (l : list A) : dropN 0 l = l.
+Proof. destruct l; reflexivity. Qed.
+Lemma takeN_add {A} a b (l : list A) : takeN (a + b) l = takeN a l ++ takeN b (dropN a l).
+Proof.
+  revert a; induction l as [|h l IH]; intros a; [reflexivity|].
+  destruct (N.eqb_spec a 0) as [->|Ha].
+  - rewrite N.add_0_l, takeN_0, dropN_0. reflexivity.
+  - cbn [takeN dropN]. destruct (N.eqb_spec (a + b) 0) as [E|E]; [lia|].
+    destruct (N.eqb_spec a 0) as [E2|_]; [lia|].
+    cbn [app]. f_equal. replace (N.pred (a + b)) with (N.pred a + b) by lia. apply IH.
+Qed.
+Lemma takeN_app_le {A} a (l m : list A) : a <= lenN l -> takeN a (l ++ m) = takeN a l.
+Proof.
+  revert a; induction l as [|h l IH]; intros a Ha; cbn [lenN] in Ha.
+  - assert (a = 0) by lia; subst. destruct m; reflexivity.
+  - cbn [app takeN]. destruct (N.eqb_spec a 0); [reflexivity|]. f_equal. apply IH. lia.
+Qed.
+
+(* ------------------------------------------------------------------ the invariant *)
+(* what is on the adapted body pipe agrees with the head it belongs to *)
+Definition body_ok (x : xs) : Prop :=
+  match ad_header (ad x) with
+  | None => o_body (out x) = [] /\ ad_in (ad x) = [] /\ s_off (vs x) = 0
+  | Some SrcVirgin => o_body (out x) = takeN (s_off (vs x)) (vp_data (vs x)) /\ ad_in (ad x) = [] /\
+                      s_off (vs x) <= lenN (vp_data (vs x))
+  | Some SrcAdapted => o_body (out x) = ad_in (ad x) /\ s_off (vs x) = 0
+  end.
+Definition answer_ok (x : xs) : Prop := forall s, o_answer (out x) = Some (Fwd s) -> ad_header (ad x) = Some s.
+Definition p1 (x : xs) : Prop := sending (st x) = SVirgin -> ad_header (ad x) = Some SrcVirgin.
+Definition p2 (x : xs) : Prop := parsing (st x) = PsBody -> ad_header (ad x) = Some SrcAdapted.
+Definition p4 (x : xs) : Prop := parsing (st x) = PsHttpHeader -> icap_h (io x) <> HNone.
+Definition p5 (x : xs) : Prop := ad_header (ad x) = Some SrcVirgin -> parsing (st x) = PsDone.
+(* holds at every point, also in the state an exception leaves behind *)
+Definition InvW (x : xs) : Prop := body_ok x /\ answer_ok x /\ p1 x /\ p2 x.
+(* holds between asynchronous calls *)
+Definition Inv (x : xs) : Prop := InvW x /\ p4 x /\ p5 x.
+
+Lemma fr_InvW x y : fr x y -> InvW x -> InvW y.
+Proof.
+  unfold fr, InvW, body_ok, answer_ok, p1, p2. intros (Ha & Ho & Hj & Hc & Hp & Hs & Hso & Hv & _) H.
+  rewrite Ha, Ho, Hp, Hs, Hso, Hv. exact H.
+Qed.
+Lemma fr_Inv x y : fr x y -> Inv x -> Inv y.
+Proof.
+  intros F (HW & H4 & H5). split; [eapply fr_InvW; eauto|].
+  unfold fr in F. destruct F as (Ha & Ho & Hj & Hc & Hp & Hs & Hso & Hv & Hr & Hh & _).
+  unfold p4, p5. rewrite Ha, Hp, Hh. auto.
+Qed.
+
+(* Hoare-style specification of a model function: P before; Q after a normal return, QT after a throw *)
+Definition spec (P : xs -> Prop) (f : xs -> res) (Q QT : xs -> Prop) : Prop :=
+  forall x, P x -> match f x with Ok y => Q y | Throw y => QT y end.
+
+Lemma spec_bind (P : xs -> Prop) f (Q QT : xs -> Prop) g (R : xs -> Prop) :
+  spec P f Q QT -> spec Q g R QT -> spec P (fun x => f x >>= g) R QT.
+Proof.
+  intros Hf Hg x Hx. specialize (Hf x Hx). unfold bind. destruct (f x) as [y|y]; [apply Hg, Hf|exact Hf].
+Qed.
+Lemma spec_frames (P : xs -> Prop) f : frames f -> (forall x y, fr x y -> P x -> P y) -> spec P f P P.
+Proof. intros Hf HP x Hx. specialize (Hf x). destruct (f x); cbn [st_of] in Hf; eapply HP; eauto. Qed.
+Lemma spec_weaken (P P' : xs -> Prop) f (Q Q' QT QT' : xs -> Prop) :
+  spec P f Q QT -> (forall x, P' x -> P x) -> (forall x, Q x -> Q' x) -> (forall x, QT x -> QT' x) -> spec P' f Q' QT'.
+Proof. intros H HP HQ HT x Hx. specialize (H x (HP x Hx)). destruct (f x); auto. Qed.
+
+Lemma Inv_InvW x : Inv x -> InvW x.
+Proof. intros [H _]; exact H. Qed.
+
+(* stopSending only ends the body: no byte, no head changes *)
+Lemma stopSending_InvW n x : InvW x -> InvW (st_of (stopSending n x)).
+Proof.
+  intros H. unfold stopSending. destruct (sending (st x)) eqn:Es; cbn [st_of]; try exact H.
+  - unfold must, bind. destruct (negb (ad_pipe (ad x))); cbn [st_of]; [|exact H].
+    eapply fr_InvW; [apply checkConsuming_fr|].
+    destruct H as (Hb & Ha & H1 & H2). repeat split; auto. unfold p1; cbn; discriminate.
+  - eapply fr_InvW; [apply checkConsuming_fr|].
+    destruct H as (Hb & Ha & H1 & H2).
+    destruct (ad_pipe (ad x)); (repeat split; [exact Hb|exact Ha|unfold p1; cbn; discriminate|exact H2]).
+  - eapply fr_InvW; [apply checkConsuming_fr|].
+    destruct H as (Hb & Ha & H1 & H2).
+    destruct (ad_pipe (ad x)); (repeat split; [exact Hb|exact Ha|unfold p1; cbn; discriminate|exact H2]).
+Qed.
+Lemma stopSending_facts n x :
+  let y := st_of (stopSending n x) in
+  ad_header (ad y) = ad_header (ad x) /\ parsing (st y) = parsing (st x) /\ icap_h (io y) = icap_h (io x) /\
+  (sending (st y) = SDone \/ y = x).
+Proof.
+  cbv zeta. unfold stopSending. destruct (sending (st x)) eqn:Es; cbn [st_of]; auto.
+  - unfold must, bind. destruct (negb (ad_pipe (ad x))); cbn [st_of]; auto.
+    pose proof (checkConsuming_fr (with_sending SDone x)) as F. unfold fr in F. cbn in F.
+    destruct F as (Fa & _ & _ & _ & Fp & Fs & _ & _ & _ & Fh & _). rewrite Fa, Fp, Fh, Fs. auto.
+  - match goal with |- context[checkConsuming ?z] => pose proof (checkConsuming_fr z) as F end.
+    unfold fr in F. destruct F as (Fa & _ & _ & _ & Fp & Fs & _ & _ & _ & Fh & _). rewrite Fa, Fp, Fh, Fs.
+    destruct (ad_pipe (ad x)); cbn; auto.
+  - match goal with |- context[checkConsuming ?z] => pose proof (checkConsuming_fr z) as F end.
+    unfold fr in F. destruct F as (Fa & _ & _ & _ & Fp & Fs & _ & _ & _ & Fh & _). rewrite Fa, Fp, Fh, Fs.
+    destruct (ad_pipe (ad x)); cbn; auto.
+Qed.
